@@ -34,6 +34,8 @@ def main(argv=None):
         with open(args.replay) as fh:
             body = json.load(fh)
         case = common.from_jsonable(body['case'])
+        if isinstance(case, dict) and case.pop('_ambient_logging', False):
+            common.set_logging(True)
         try:
             mod.replay(case)
         except common.Violation as v:
